@@ -68,7 +68,8 @@ NextLegal == \E a \in Actions : Legal(s, a) /\ Step(a)
 Spec == Init /\ [][Next]_vars
 SpecLegal == Init /\ [][NextLegal]_vars
 
-RulesView == <<s.nodes.demands, s.vehicles.capacities, s.vehicles.positions, last, Min2(s.step_count, Horizon + 3)>>
+\* the rules do not depend on the history: hide `order`, d0, clocks, returns and the last action
+RulesView == <<s.nodes.demands, s.vehicles.capacities, s.vehicles.positions, last.type, last.pl, s.step_count>>
 Live == ~last.pl /\ StepsDone(s) <= Horizon      \* states of the episode proper (up to and including its LAST)
 
 (* C03 *) Protocol == (last.type = FIRST <=> s.step_count = 1) /\ last.type \in {FIRST, MID, LAST}
